@@ -100,15 +100,22 @@ fn commands_for(c: &Case, p: &Prog) -> (Vec<Cmd>, Vec<u8>) {
     let (mut raw_cmds, mut raw_aliases) = commands_for_raw(c, p);
     if let Case::Generated { crowd, .. } = c {
         if let Some((k, in_source)) = crowd_of(*crowd) {
-            // the breakpoints the source does not already hold, on consecutive words from the
-            // origin on, added in a scattered order (stride coprime to k)
+            // the breakpoints the source does not already hold (on consecutive words from the
+            // origin on when the source holds some; otherwise wherever the selector anchors them),
+            // added in a scattered order
             let have = if in_source { p.breaks.len() } else { 0 };
-            let stride = [7usize, 11, 13, 17, 19, 23].into_iter().find(|s| k % s != 0).unwrap_or(1);
-            let mut pre: Vec<Cmd> = (0..k).map(|j| (j * stride) % k).filter(|j| *j >= have || !in_source).map(|j| Cmd::BreakAdd(crate::refdbg::Loc::Abs(p.orig.wrapping_add(j as u16), 0))).collect();
+            let addrs: Vec<u16> = if in_source {
+                let stride = [7usize, 11, 13, 17, 19, 23].into_iter().find(|s| k % s != 0).unwrap_or(1);
+                (0..k).map(|j| (j * stride) % k).filter(|j| *j >= have).map(|j| p.orig.wrapping_add(j as u16)).collect()
+            } else {
+                crowd_addrs(p, *crowd)
+            };
+            let mut pre: Vec<Cmd> = addrs.iter().map(|a| Cmd::BreakAdd(crate::refdbg::Loc::Abs(*a, 0))).collect();
             pre.push(Cmd::BreakList);
             let np = pre.len();
             pre.extend(raw_cmds);
-            pre.extend(std::iter::repeat(Cmd::Continue).take(k.min(40)));
+            let all: Vec<u16> = if in_source { (0..k).map(|j| p.orig.wrapping_add(j as u16)).collect() } else { addrs };
+            pre.extend(crowd_tail(&all, *crowd));
             raw_cmds = pre;
             let mut al = vec![0u8; np];
             al.extend(raw_aliases);
@@ -371,7 +378,7 @@ pub fn judge_case(c: &Case) -> Obs {
 
 fn cases() -> impl Strategy<Value = Case> {
     crate::pick![
-        9 => (crate::pick![6 => proggen::prog_spec(20).boxed(), 1 => proggen::raw_image_spec(super::c03::image_words()).boxed()], prop::collection::vec((any::<u16>(), 0u8..3), 0..4), prop::collection::vec(raw_cmd(), 1..14), input_bytes(), crate::pick![6 => Just(0u16), 1 => 1u16..=28])
+        9 => (crate::pick![6 => proggen::prog_spec(20).boxed(), 1 => proggen::raw_image_spec(super::c03::image_words()).boxed()], prop::collection::vec((any::<u16>(), 0u8..3), 0..4), prop::collection::vec(raw_cmd(), 1..14), input_bytes(), crate::pick![6 => Just(0u16), 1 => 1u16..=2000])
             .prop_map(|(spec, extra, mut cmds, input, crowd)| {
                 if crowd > 0 {
                     cmds.truncate(6);
@@ -387,7 +394,7 @@ impl Prop for C11 {
         "C11"
     }
     fn rule(&self) -> &'static str {
-        "ProgGen programs with `.break` directives sprinkled by the generator plus 0-3 extra placements at any line position (before the first statement / .orig, between any two, after the last, doubled, on a labelled line), at default and non-default origins x histories of 1-13 commands over every resuming command, break add/remove (absolute, label+-offset, ^offset; extra weight on removing predefined ones), break list, the commands that move the PC while paused (goto, reset), aliasing scenarios (a second breakpoint 64*2^k words away from one in the code, added and removed again), and - a seventh of the sessions - a crowd of 15..18 / 31..34 / 63..66 / 100 / 257 breakpoints on consecutive words from the origin on (written as `.break` lines or added at run time in a scattered order) before a shorter history that is followed by up to 40 further `continue`s; plus the one-instruction loop `F call F` with a breakpoint on it. \
+        "ProgGen programs with `.break` directives sprinkled by the generator plus 0-3 extra placements at any line position (before the first statement / .orig, between any two, after the last, doubled, on a labelled line), at default and non-default origins x histories of 1-13 commands over every resuming command, break add/remove (absolute, label+-offset, ^offset; extra weight on removing predefined ones), break list, the commands that move the PC while paused (goto, reset), aliasing scenarios (a second breakpoint 64*2^k words away from one in the code, added and removed again), and - a seventh of the sessions - a crowd of 15..18 / 31..34 / 63..66 / 100 / 257 breakpoints on consecutive words from the origin on (written as `.break` lines, or added at run time in a scattered order from the origin on or ending at a word of the program) before a shorter history that is followed by up to 40 further `continue`s among which one or two members of the crowd are removed (and one put back); plus the one-instruction loop `F call F` with a breakpoint on it. \
          Oracle: RefDbg — pause before the marked instruction, resuming executes it once, it fires again on the next arrival (also when that is the very next instruction), removed breakpoints never pause: registers/PC/CC after every command, full final snapshot, executed-instruction count; `.break` occupies no memory (image equals the encoding without it) and marks the next statement (addresses recorded by the assembler); every `break list` equals the model's sorted duplicate-free list. \
          Non-trivial: a breakpoint is hit at least twice in the session, or a predefined breakpoint is removed and execution continues. Distinct = hash(source, script, input)."
     }
